@@ -66,17 +66,22 @@ WalkOf(j) == Walk(Log[j], InitSt(Log[j]))
 (***************************************************************************)
 (* The product explored by TLC: record i, step k of its observed life cycle *)
 (***************************************************************************)
-VARIABLES i, k, bad
+VARIABLES i, st, k, bad
 
 Init == /\ i \in 1..NLog
+        /\ st = InitSt(Log[i])
         /\ k = 0
         /\ bad = {}
-Next == LET w == WalkOf(i) IN
-        /\ k < Len(w)
+Next == LET c  == Log[i]
+            ev == EventOf(c, st) IN
+        /\ ev # "none"
+        /\ ObsOf(c, ev) # "none"
+        /\ LET ok == ObsOf(c, ev) = "ok" IN
+           /\ st' = After(c, st, ev, ok)
+           /\ bad' = bad \cup GhostAfter(c, st, ev, ok)
         /\ k' = k + 1
-        /\ bad' = bad \cup (IF w[k + 1].obs = "ok" THEN w[k + 1].binding ELSE {})
         /\ UNCHANGED i
-Spec == Init /\ [][Next]_<<i, k, bad>>
+Spec == Init /\ [][Next]_<<i, st, k, bad>>
 View == <<i, k, bad>>
 
 C05 == Inv_C05(bad)
@@ -124,6 +129,9 @@ ReportOf(S) ==
     stricter_samples |-> Some(Stricter, 10),
     ndivergences |-> Cardinality(Diverging),
     divergences  |-> Some(Diverging, 40),
+    divergence_kinds |-> LET K(p) == <<At(p).ev, At(p).obs, At(p).cls, At(p).mok, At(p).mrule>>
+                             ks == {K(p) : p \in Diverging} IN
+                         SetToSeq({<<x, Cardinality({p \in Diverging : K(p) = x})>> : x \in ks}),
     sole_refused |-> SetToSeq(SoleRefused),
     sole_missing |-> SetToSeq((CommitRules \cup SetupRules) \ SoleRefused),
     sole_in_matrix_missing |-> SetToSeq((CommitRules \cup SetupRules) \ SoleAny),
